@@ -1,13 +1,13 @@
-\* escape focus, tag keys range over every string of length <= 2; leaf predicates
+\* lead: the matcher as found (F36, bare measurement name popped like a tag pair): ModelAgrees is expected to be violated
 SPECIFICATION Spec
 CONSTANTS
-  MeasSet <- Heavy4
-  KeySet <- AllStr
+  MeasSet <- AllStr
+  KeySet <- Heavy4
   ValSet <- Heavy4
   TagCounts = {0, 1}
   LeafMode = "series"
   Shape = "leaf"
-  SkipName = TRUE
+  SkipName = FALSE
   PredKeys <- Plain
   PredVals <- Plain
 INVARIANTS KeyRoundTrips ModelAgrees
